@@ -22,6 +22,10 @@ pub enum SdOp {
     NumBytes,
     CardType,
     MarkUninit,
+    /// another card (kind and capacity as given) is put into the slot and the driver is told (mark_card_uninit)
+    Swap { kind: u8, c_size: u32 },
+    /// the initialised card is handed to a new driver object with mark_card_as_init (no identification sequence)
+    HandOver,
 }
 
 #[derive(Serialize, Deserialize, Clone, Debug)]
@@ -73,8 +77,25 @@ fn gen_card(r: &mut Rng, slow: bool) -> CardCfg {
         ocr_extra: *r.pick(&[0u8, 0, 0x20, 0x01, 0x21]),
         resp_hi: *r.pick(&[7u8, 7, 0, 5, 2, 1]),
         cmd59_illegal: false,
+        cmd0_ignored: *r.pick(&[0u8, 0, 0, 0, 1, 2]),
         adversary: Adversary::None,
     }
+}
+
+fn swapped(cur: &CardCfg, kind: u8, c_size: u32) -> CardCfg {
+    let mut c = cur.clone();
+    c.kind = [CardKind::V1Sc, CardKind::V2Sc, CardKind::V2Hc][(kind % 3) as usize];
+    c.c_size = if c.kind == CardKind::V2Hc { c_size & 0x3F_FFFF } else { c_size & 0xFFF };
+    if c.kind != CardKind::V2Hc {
+        c.read_bl_len = 9;
+    } else {
+        c.c_size_mult = 0;
+        c.read_bl_len = 9;
+    }
+    c.adversary = Adversary::None;
+    c.cmd59_illegal = false;
+    c.timing_seed ^= 0x77;
+    c
 }
 
 fn gen_ops(r: &mut Rng, cap: u64, len: usize) -> Vec<SdOp> {
@@ -146,6 +167,12 @@ pub fn gen_case(prop: &str, seed: u64) -> SdCase {
             7 => Adversary::GarbageFrom(k),
             8 => {
                 bus_fail_at = Some(r.range(0, 400));
+                if r.chance(1, 3) {
+                    // the card sleeps through the first CMD0: the bus error lands in the retry path (the time-out polls,
+                    // the filler burst before the next attempt, the second CMD0)
+                    card.cmd0_ignored = 1;
+                    bus_fail_at = Some(r.range(9_990, 10_300));
+                }
                 Adversary::None
             }
             9 if r.chance(1, 20) => Adversary::TooSlow,
@@ -177,6 +204,28 @@ pub fn gen_case(prop: &str, seed: u64) -> SdCase {
     }
     if acquire_retries == 0 && card.cmd0_bad_answers > 0 {
         acquire_retries = 1;
+    }
+    if (acquire_retries as u64) < card.cmd0_bad_answers as u64 + card.cmd0_ignored as u64 {
+        card.cmd0_ignored = 0;
+    }
+    if card.adversary == Adversary::None && bus_fail_at.is_none() && r.chance(1, 8) {
+        // another card is put into the slot half way: everything after is about the new card
+        let at = r.usize_below(ops.len() + 1);
+        let kind = r.below(3) as u8;
+        let c_size = match r.below(3) {
+            0 => r.range(0, 16) as u32,
+            1 => 0x3F_FFFE,
+            _ => r.next_u32(),
+        };
+        let newcap = swapped(&card, kind, c_size).capacity_blocks();
+        let tail = gen_ops(&mut r, newcap, ops.len() - at + 2);
+        ops.truncate(at);
+        ops.push(SdOp::Swap { kind, c_size });
+        ops.extend(tail);
+    }
+    if r.chance(1, 6) && !ops.is_empty() {
+        let at = r.usize_below(ops.len().min(3) + 1);
+        ops.insert(at, SdOp::HandOver);
     }
     if prop == "C13" && matches!(card.adversary, Adversary::FlipBits { .. }) && r.chance(1, 6) {
         // a card that refuses CRC_ON_OFF while the host was asked for CRC: whatever the driver then does, it must
@@ -267,8 +316,10 @@ pub fn sd_eval(prop: &'static str, case: &SdCase) -> CaseOutcome {
     out.evaluations = 1;
     let mut probes = Probes::default();
     let mut viols: Vec<Violation> = Vec::new();
-    let rg = rig(case);
-    let cap = case.card.capacity_blocks();
+    let mut rg = rig(case);
+    let mut cap = case.card.capacity_blocks();
+    // the card in the slot (a Swap operation replaces it)
+    let mut cur = case.card.clone();
     let mut twin: BTreeMap<u64, [u8; 512]> = BTreeMap::new();
     let expect_block = |twin: &BTreeMap<u64, [u8; 512]>, b: u64| twin.get(&b).copied().unwrap_or_else(|| default_fill(b));
     let crc_refused = case.card.cmd59_illegal && case.use_crc;
@@ -304,6 +355,8 @@ pub fn sd_eval(prop: &'static str, case: &SdCase) -> CaseOutcome {
             SdOp::NumBytes => "num_bytes",
             SdOp::CardType => "get_card_type",
             SdOp::MarkUninit => "mark_card_uninit",
+            SdOp::Swap { .. } => "swap_card",
+            SdOp::HandOver => "hand_over",
         };
         let mut res = CallRes::Ok;
         match op {
@@ -311,12 +364,38 @@ pub fn sd_eval(prop: &'static str, case: &SdCase) -> CaseOutcome {
                 rg.drv.mark_card_uninit();
                 probes.hit("mark_card_uninit");
             }
+            SdOp::Swap { kind, c_size } => {
+                cur = swapped(&cur, *kind, *c_size);
+                rg.card.borrow_mut().swap(cur.clone());
+                rg.drv.mark_card_uninit();
+                cap = cur.capacity_blocks();
+                twin.clear();
+                probes.hit("card_swapped");
+            }
+            SdOp::HandOver => {
+                let r = std::panic::catch_unwind(std::panic::AssertUnwindSafe(|| Ok::<_, embedded_sdmmc::SdCardError>(rg.drv.get_card_type())));
+                let (cr, v) = classify(r);
+                res = cr;
+                match v {
+                    Some(Some(t)) => {
+                        let spi = SimSpi { card: rg.card.clone(), bus: rg.bus.clone() };
+                        let delay = SimDelay { ns: rg.ns.clone() };
+                        let d = SdCard::new_with_options(spi, delay, AcquireOpts { use_crc: case.use_crc, acquire_retries: case.acquire_retries });
+                        // the documented hand-over of an already initialised card to another driver object
+                        unsafe { d.mark_card_as_init(t) };
+                        rg.drv = d;
+                        probes.hit("handed_over_with_mark_card_as_init");
+                    }
+                    Some(None) => res = CallRes::Err("init failed".into()),
+                    None => {}
+                }
+            }
             SdOp::CardType => {
                 let r = std::panic::catch_unwind(std::panic::AssertUnwindSafe(|| Ok::<_, embedded_sdmmc::SdCardError>(rg.drv.get_card_type())));
                 let (cr, v) = classify(r);
                 res = cr;
                 if let Some(t) = v {
-                    let want = match case.card.kind {
+                    let want = match cur.kind {
                         CardKind::V1Sc => CardType::SD1,
                         CardKind::V2Sc => CardType::SD2,
                         CardKind::V2Hc => CardType::SDHC,
@@ -325,7 +404,7 @@ pub fn sd_eval(prop: &'static str, case: &SdCase) -> CaseOutcome {
                         Some(t) if t == want => probes.hit("card_kind_identified"),
                         Some(t) => {
                             if !unreliable_answers {
-                                push("C12", "card-kind", &format!("{:?}-as-{:?}", case.card.kind, t), String::new(), i)
+                                push("C12", "card-kind", &format!("{:?}-as-{:?}", cur.kind, t), String::new(), i)
                             }
                         }
                         None => res = CallRes::Err("init failed".into()),
@@ -338,7 +417,7 @@ pub fn sd_eval(prop: &'static str, case: &SdCase) -> CaseOutcome {
                 res = cr;
                 if let Some(b) = v {
                     if b.0 as u64 != cap && !unreliable_answers && (case.use_crc || !wire_altered0) {
-                        push("C12", "capacity-blocks", &format!("{:?}", case.card.kind), format!("driver {} blocks, CSD says {} (c_size {}, mult {}, read_bl_len {})", b.0, cap, case.card.c_size, case.card.c_size_mult, case.card.read_bl_len), i);
+                        push("C12", "capacity-blocks", &format!("{:?}", cur.kind), format!("driver {} blocks, CSD says {} (c_size {}, mult {}, read_bl_len {})", b.0, cap, cur.c_size, cur.c_size_mult, cur.read_bl_len), i);
                     } else {
                         probes.hit("capacity_checked");
                     }
@@ -350,7 +429,7 @@ pub fn sd_eval(prop: &'static str, case: &SdCase) -> CaseOutcome {
                 res = cr;
                 if let Some(b) = v {
                     if b != cap * 512 && !unreliable_answers && (case.use_crc || !wire_altered0) {
-                        push("C12", "capacity-bytes", &format!("{:?}", case.card.kind), format!("driver {} bytes, CSD says {}", b, cap * 512), i);
+                        push("C12", "capacity-bytes", &format!("{:?}", cur.kind), format!("driver {} bytes, CSD says {}", b, cap * 512), i);
                     }
                 }
             }
@@ -372,7 +451,7 @@ pub fn sd_eval(prop: &'static str, case: &SdCase) -> CaseOutcome {
                         for (k, b) in bufs.iter().enumerate() {
                             if b.contents != expect_block(&twin, *block + k as u64) {
                                 let p = if adversarial { "C13" } else { "C12" };
-                                push(p, if adversarial { "corrupted-data-returned-as-good" } else { "read-data" }, &format!("{}:{:?}:crc{}", opk, case.card.kind, case.use_crc as u8), format!("block {} (+{}) differs from card memory", block, k), i);
+                                push(p, if adversarial { "corrupted-data-returned-as-good" } else { "read-data" }, &format!("{}:{:?}:crc{}", opk, cur.kind, case.use_crc as u8), format!("block {} (+{}) differs from card memory", block, k), i);
                                 break;
                             }
                         }
@@ -415,14 +494,14 @@ pub fn sd_eval(prop: &'static str, case: &SdCase) -> CaseOutcome {
                     for (k, v) in c.mem.iter() {
                         if twin.get(k) != Some(v) {
                             let p = if adversarial { "C13" } else { "C12" };
-                            push(p, "card-memory-differs", &format!("{}:{:?}", opk, case.card.kind), format!("block {} of the card differs from what the calls so far should have stored", k), i);
+                            push(p, "card-memory-differs", &format!("{}:{:?}", opk, cur.kind), format!("block {} of the card differs from what the calls so far should have stored", k), i);
                             break;
                         }
                     }
                     if matches!(res, CallRes::Ok) {
                         for (k, v) in twin.iter() {
                             if c.mem.get(k) != Some(v) {
-                                push(if adversarial { "C13" } else { "C12" }, "write-not-stored", &format!("{}:{:?}", opk, case.card.kind), format!("block {} not on the card after Ok", k), i);
+                                push(if adversarial { "C13" } else { "C12" }, "write-not-stored", &format!("{}:{:?}", opk, cur.kind), format!("block {} not on the card after Ok", k), i);
                                 break;
                             }
                         }
@@ -461,7 +540,7 @@ pub fn sd_eval(prop: &'static str, case: &SdCase) -> CaseOutcome {
                         _ => true,
                     };
                     if in_range {
-                        push("C12", "call-failed-on-a-healthy-card", &format!("{}:{:?}:crc{}", opk, case.card.kind, case.use_crc as u8), format!("{} ({} bytes on the bus, slow={})", e, used, case.card.slow), i);
+                        push("C12", "call-failed-on-a-healthy-card", &format!("{}:{:?}:crc{}", opk, cur.kind, case.use_crc as u8), format!("{} ({} bytes on the bus, slow={})", e, used, cur.slow), i);
                         break;
                     }
                 }
@@ -495,13 +574,17 @@ pub fn sd_eval(prop: &'static str, case: &SdCase) -> CaseOutcome {
                         push("C13", "bus-error-swallowed", opk, String::new(), i);
                     }
                 }
-                if !matches!(op, SdOp::MarkUninit) {
+                if !matches!(op, SdOp::MarkUninit | SdOp::Swap { .. }) {
                     init_failed_last = false;
                     driver_init = true;
                 } else {
                     driver_init = false;
                 }
             }
+        }
+        if !matches!(res, CallRes::Ok) {
+            // a host that re-initialises after a failed call has no better option than CMD0, busy or not
+            rg.card.borrow_mut().strict_cmd0 = false;
         }
         let transient = matches!(case.card.adversary, Adversary::FlipBits { .. } | Adversary::BadToken { .. } | Adversary::RejectWrite { .. } | Adversary::Cmd13Error { .. }) && case.bus_fail_at.is_none();
         if matches!(res, CallRes::Err(_)) && adversarial && transient {
@@ -813,6 +896,7 @@ pub fn enumerated_flip_case(i: u64) -> SdCase {
         ocr_extra: 0,
         resp_hi: 7,
         cmd59_illegal: false,
+        cmd0_ignored: 0,
         adversary: Adversary::FlipBits { block_no: if multi { 1 } else { 0 }, bits: vec![bit] },
     };
     let ops = if multi { vec![SdOp::Read { block: 5 + i % 50, n: 3 }, SdOp::Read { block: 5 + i % 50, n: 3 }, SdOp::Write { block: 2, n: 2, seed: i as u32 }] } else { vec![SdOp::Read { block: i % 200, n: 1 }, SdOp::Read { block: i % 200, n: 1 }] };
